@@ -866,3 +866,206 @@ def mon_c12(case):
                 return step, f"after put({k},{v}) the key is not resident with that value: {sorted(resident2)}"
         prevs = (hdr, lists)
     return None
+
+
+def mon_c02(case):
+    """coherence on the implementation's own observations: a shadow unbounded map is driven by the
+    operations and the results the cache returned; every lookup result must be the stored value,
+    a released key must never be reported, the five lookups must agree with the resident lists, and
+    remove must hand back the retained value and release the key"""
+    kind = case["kind"]
+    if kind not in LAYOUT:
+        return None
+    resident_idx = LAYOUT[kind][2]
+    shadow = {}
+    prev_lists = None
+    for step, (op, out, cb, acct, snap) in enumerate(case["lines"], 1):
+        if not op or op[0] in (98, 99) or out == [-1000]:
+            continue
+        p = parse_snap(kind, snap)
+        if p is None:
+            return step, "unreadable snapshot"
+        hdr, lists, _, _ = p
+        if prev_lists is None:
+            prev_lists = [[] for _ in lists]
+        resident = {}
+        for i in resident_idx:
+            resident.update(dict(prev_lists[i]))
+        retained = {}
+        for l in prev_lists:
+            retained.update(dict(l))
+        c = op[0]
+        if c in (1, 2, 3, 4):
+            k = op[1]
+            want = [1, resident[k]] if k in resident else [0]
+            if out != want:
+                return step, f"lookup op {c} of key {k} returned {out} but the resident entry is {resident.get(k)}"
+            if out[0] == 1 and shadow.get(k) != out[1]:
+                return step, f"lookup op {c} of key {k} returned {out[1]} but the value most recently stored is {shadow.get(k)}"
+            if c in (2, 4) and op[2] != 0 and out[0] == 1:
+                shadow[k] = op[3]
+        elif c == 5:
+            k = op[1]
+            if out != [int(k in resident)]:
+                return step, f"contains({k}) = {out} but resident keys are {sorted(resident)}"
+            if out == [1] and k not in shadow:
+                return step, f"contains({k}) is true for a key that was released (removed, purged or reported evicted) and not put since"
+        elif c == 0 or (c == 30 and kind == 1):
+            k, v = op[1], op[2]
+            shadow[k] = v
+            if out and out[0] in (2, 3):
+                shadow.pop(out[1], None)      # the reported eviction releases that key (the key itself at capacity 0)
+        elif c == 6:
+            k = op[1]
+            want = [1, retained[k]] if k in retained else [0]
+            if out != want:
+                return step, f"remove({k}) returned {out} but the retained entry is {retained.get(k)}"
+            if any(e[0] == k for l in lists for e in l):
+                return step, f"remove({k}) left the key in the cache"
+            shadow.pop(k, None)
+        elif c == 7:
+            shadow = {}
+            if any(lists):
+                return step, "purge left entries behind"
+        elif kind == 0 and c in (16, 17, 18):
+            # peek_or_put / peek_mut_or_put / contains_or_put
+            if op[1] not in dict(prev_lists[0]):
+                shadow[op[1]] = op[2]
+                body = out[1:]            # [1, tag, ...] = Some(put result)
+                if len(body) >= 3 and body[0] == 1 and body[1] in (2, 3):
+                    shadow.pop(body[2], None)
+            elif c == 17 and op[3] != 0:
+                shadow[op[1]] = op[4]
+        elif kind == 0 and c == 23 and out and out[0] == 1:
+            shadow.pop(out[1], None)
+        else:
+            # operations outside the property's alphabet that can store through a reference or release entries
+            # (per-segment *_mut accessors, iter_mut, get_lru_mut, resize, remove_lru_from_*, clone):
+            # the shadow map is resynchronised with what the cache retains
+            for l in lists:
+                for k2, v2 in l:
+                    shadow[k2] = v2
+        if c in (0, 1, 2, 3, 4, 5, 6, 7) or (c == 30 and kind == 1) or (kind == 0 and c in (16, 17, 18, 23)):
+            # every retained entry must be what the shadow map holds (may forget, never wrong)
+            for l in lists:
+                for k2, v2 in l:
+                    if shadow.get(k2) != v2:
+                        return step, f"the cache retains ({k2}, {v2}) but the value most recently stored for {k2} is {shadow.get(k2)}"
+        prev_lists = lists
+    return None
+
+
+ITER_KINDS = {0: (False, False, 0), 1: (True, False, 0), 2: (False, True, 0), 3: (True, True, 0),
+              4: (False, False, 1), 5: (True, False, 1), 6: (False, False, 2), 7: (True, False, 2),
+              8: (False, True, 2), 9: (True, True, 2), 10: (False, False, 0), 11: (False, True, 0)}
+
+
+def _iter_expect(args, lst):
+    """expected output of an iterator script on list `lst` (most-recent first), from the property alone:
+    next takes from the front of the documented order, next_back from its back, every entry once,
+    len exact, exhausted stays exhausted; returns (encoded yields, list after the writes)"""
+    code, npre, na, nb = args[:4]
+    if code not in ITER_KINDS:
+        return None
+    lru, mut, proj = ITER_KINDS[code]
+    tr = args[4:]
+    reqs = [(tr[3 * i] != 0, tr[3 * i + 1] != 0, tr[3 * i + 2]) for i in range(npre + na + nb)]
+    pre, pa, pb = reqs[:npre], reqs[npre:npre + na], reqs[npre + na:]
+    order = list(reversed(lst)) if lru else list(lst)     # the documented order of this iterator
+    writes = {}
+    out = []
+
+    def run(rem, rs, allow_write):
+        rem = list(rem)
+        for back, wf, w in rs:
+            if not rem:
+                out.extend([0, 0])
+                continue
+            k, v = rem.pop() if back else rem.pop(0)
+            if proj == 0:
+                out.extend([1, k, v, len(rem)])
+            elif proj == 1:
+                out.extend([1, k, len(rem)])
+            else:
+                out.extend([1, v, len(rem)])
+            if allow_write and mut and wf:
+                writes[k] = w
+        return rem
+    rem0 = run(order, pre, True)
+    run(rem0, pa, True)
+    run(rem0, pb, False)
+    after = [(k, writes.get(k, v)) for k, v in lst]
+    return out, after
+
+
+def mon_c14(case):
+    """iterators of RawLRU and of every list of 2Q / ARC: each entry once, documented order, both ends,
+    exact len, fused, independent clones, writes visible without reordering"""
+    kind = case["kind"]
+    if kind not in (0, 2, 3):
+        return None
+    prev_lists = None
+    for step, (op, out, cb, acct, snap) in enumerate(case["lines"], 1):
+        if not op or op[0] in (98, 99) or out == [-1000]:
+            continue
+        p = parse_snap(kind, snap)
+        if p is None:
+            return step, "unreadable snapshot"
+        _, lists, _, _ = p
+        if prev_lists is None:
+            prev_lists = [[] for _ in lists]
+        if (kind == 0 and op[0] == 24) or (kind in (2, 3) and op[0] == 60):
+            idx, args = (0, op[1:]) if kind == 0 else (op[1], op[2:])
+            if 0 <= idx < len(prev_lists):
+                exp = _iter_expect(args, prev_lists[idx])
+                if exp is not None:
+                    want_out, want_after = exp
+                    if out != want_out:
+                        return step, (f"iterator kind {args[0]} on list {prev_lists[idx]} with requests {args[1:]}: "
+                                      f"yielded {out}, the property requires {want_out}")
+                    if lists[idx] != want_after:
+                        return step, f"after the iterator script the list is {lists[idx]}, expected {want_after} (writes visible, order unchanged)"
+                    for j, l in enumerate(lists):
+                        if j != idx and l != prev_lists[j]:
+                            return step, f"an iterator over list {idx} changed list {j}"
+        prev_lists = lists
+    return None
+
+
+def xmon_c17(cases):
+    """the same history under the five BuildHashers (cases i = 5g .. 5g+4 of an --hgroup slice): every
+    result, callback log and snapshot must be identical; yields (case id, step, message, group)"""
+    import re as _re
+    groups = {}
+    for c in cases:
+        m = _re.match(r"(.*)-i(\d+)$", c["id"])
+        if not m:
+            continue
+        groups.setdefault((m.group(1), int(m.group(2)) // 5), []).append(c)
+    out = []
+    for key, grp in sorted(groups.items()):
+        if len(grp) < 2:
+            continue
+        ref = grp[0]
+        for other in grp[1:]:
+            if other["cfg"] != ref["cfg"] and other["kind"] != 4:
+                out.append((other["id"], 0, f"configuration differs between hashers: {ref['cfg']} vs {other['cfg']}", grp))
+                break
+            n = max(len(ref["lines"]), len(other["lines"]))
+            bad = None
+            for i in range(n):
+                if i >= len(ref["lines"]) or i >= len(other["lines"]):
+                    bad = (i + 1, f"history lengths differ between hashers ({ref['meta']} vs {other['meta']})")
+                    break
+                a, b = ref["lines"][i], other["lines"][i]
+                for fi, name in ((0, "operation"), (1, "result"), (2, "callback log"), (4, "state")):
+                    if a[fi] != b[fi]:
+                        bad = (i + 1, f"{name} of call {a[0][:4]} differs between hashers [{ref['meta']}] and [{other['meta']}]: "
+                                      f"{a[fi][:12]} vs {b[fi][:12]}")
+                        break
+                if bad:
+                    break
+            if bad:
+                out.append((other["id"], bad[0], bad[1], grp))
+                break
+    return out
